@@ -256,6 +256,10 @@ func pathDepth(v ssa.Value, d int) string {
 			return pathDepth(x.X, d+1) + ".*"
 		}
 		return x.Op.String() + "(" + pathDepth(x.X, d+1) + ")"
+	case *ssa.IndexAddr:
+		return pathDepth(x.X, d+1) + "[&" + pathDepth(x.Index, d+1) + "]"
+	case *ssa.Index:
+		return pathDepth(x.X, d+1) + "[" + pathDepth(x.Index, d+1) + "]"
 	case *ssa.FieldAddr:
 		return pathDepth(x.X, d+1) + ".&" + fieldOf(x).Name()
 	case *ssa.Field:
